@@ -98,8 +98,16 @@ BTB_STATUS = {"success": "success", "failure": "failure", "error": "error", "ski
               "uxsuccess": "success"}
 
 
-def call_outcome(res, test, outcome, as_details):
-    if as_details:
+def empty_details(outcome, as_details, n):
+    """The second test of a history reports a success in details form with an EMPTY dict (what TestCase.run sends for a
+    passing test without attachments)."""
+    return bool(as_details) and outcome == "success" and n == 1
+
+
+def call_outcome(res, test, outcome, as_details, n=0):
+    if empty_details(outcome, as_details, n):
+        res.addSuccess(test, details={})
+    elif as_details:
         d = {"d": text_content(DETAIL_TEXT)}
         if outcome in ("failure", "error", "xfail"):
             d["traceback"] = text_content(TRACE_TEXT)      # a traceback detail next to another text detail
@@ -161,7 +169,7 @@ def run_history(top, bottom, tkind, tobj, ntests, o1, d1, o2, d2, extras):
                 res.tags({"c"}, set())           # test-local tag
             if extras & 2:
                 res.time(tokens[2 * n + 1])
-            call_outcome(res, test, OUTCOMES[oi], dt)
+            call_outcome(res, test, OUTCOMES[oi], dt, n)
             res.stopTest(test)
         if extras & 8:
             res.stop()
@@ -192,7 +200,10 @@ def run_history(top, bottom, tkind, tobj, ntests, o1, d1, o2, d2, extras):
                 want_tags = (({"a", "b", "c"} if extras & 4 else set()) | ({"tg"} if top == 5 else set())) - ({"a"} if top == 6 else set())
                 if set(c["tags"]) != want_tags:
                     problems.append("callback %d: tags %r, expected %r" % (n, c["tags"], want_tags))
-                if dt and not any(DETAIL_TEXT in x.as_text() for x in (c["details"] or {}).values()):
+                if empty_details(OUTCOMES[oi], dt, n):
+                    if c["details"] != {}:
+                        problems.append("callback %d: details %r, the (empty) details dict was passed" % (n, c["details"]))
+                elif dt and not any(DETAIL_TEXT in x.as_text() for x in (c["details"] or {}).values()):
                     problems.append("callback %d: details lost" % n)
             continue
         evs = [e for e in t._events if e[0] in ("startTest", "stopTest") or e[0].startswith("add")]
@@ -206,7 +217,9 @@ def run_history(top, bottom, tkind, tobj, ntests, o1, d1, o2, d2, extras):
         k = 0
         for n, (oi, dt) in enumerate(plan):
             ev = evs[3 * n + 1]
-            if not payload_ok(ev, OUTCOMES[oi], dt, tkind):
+            if empty_details(OUTCOMES[oi], dt, n):
+                pass          # nothing to lose (the doubles log addSuccess(details={}) and addSuccess() alike)
+            elif not payload_ok(ev, OUTCOMES[oi], dt, tkind):
                 problems.append("target %d: payload of %s lost: %r" % (ti, ev[0], ev[2:]))
         if extras & 8 and not getattr(t, "shouldStop", True):
             problems.append("stop() did not reach target %d" % ti)
